@@ -42,6 +42,8 @@ package syncx
 //@ func (*Pool).Get
 //@   prop C18
 //@   requires p != nil && p.created <= p.limit
+//@   let idle = ret(timex.Now) - at_head(p.head.lastUsed)
+//@   loop 1 iteration-ensures [destroyed-only-when-idle-beyond-the-max-age] h0 != nil && at_head(p.head.lastUsed) >= 0 && ret(timex.Now) >= at_head(p.head.lastUsed) ==> p.maxAge > 0 && idle > p.maxAge
 //@   let h0 = at_head(p.head)
 //@   loop 1 invariant p.created <= p.limit
 //@   loop 1 iteration-ensures [expired-destroyed-or-waited] (h0 != nil ==> p.created == at_head(p.created) - 1 && calls(destroy) == 1 && arg(destroy, 0) == at_head(p.head.item) && p.head == at_head(p.head.next) && p.maxAge > 0 && at_head(p.head.lastUsed) + p.maxAge < ret(timex.Now))
